@@ -621,6 +621,199 @@ def window_cursor(prog, rep, L):
         raise cdb.AnalysisBroken("W1: callback_read_header no longer reads hepos (anchor gone)")
 
 
+
+# ---------------------------------------------------------------------------
+def cookie_init(prog, rep, L):
+    """W5: the request record is malloc'ed, so every field holds garbage until it is stored.  Must-analysis over the whole
+    continuation structure: starting from the allocation in the constructor, no path -- through direct calls, tail calls
+    and callbacks registered with the request -- reads a field of the request before a store to it.  (A framing flag read
+    uninitialised makes the decoder wait for bytes a well-formed response never contains.)"""
+    u = prog.unit(UNIT)
+    local = {f.name: f for f in u.funcs if f.file == UNIT}
+    rec = u.records.get(REC)
+    if rec is None:
+        raise cdb.AnalysisBroken("W5: record %s not found" % REC)
+
+    def cookie_ptrs(f):
+        """Variables of f that point to the request record."""
+        out = set()
+        for p in f.params:
+            if p["ty"].replace(" ", "") == ("struct " + REC + "*").replace(" ", ""):
+                out.add(("v", p["name"], p["id"]))
+        for e in f.all_elems():
+            if e.cls == "DeclStmt" and e.decls:
+                for d in e.decls:
+                    if d.get("ty", "").replace(" ", "") == ("struct " + REC + "*").replace(" ", ""):
+                        out.add(("v", d["name"], d["id"]))
+        return out
+
+    def fpath(n, ptrs):
+        """'res.bodylen' for H->res.bodylen; None when n is not a field of the request."""
+        path = []
+        while isinstance(n, tuple) and n and n[0] == ".":
+            path.append(n[2])
+            n = n[1]
+        if isinstance(n, tuple) and n and n[0] == "*" and n[1] in ptrs and path:
+            return ".".join(reversed(path))
+        return None
+
+    def covered(fld, written):
+        return any(fld == w or fld.startswith(w + ".") for w in written)
+
+    def handoffs(e):
+        tg = []
+        if e.cls == "CallExpr":
+            if e.callee in local:
+                tg.append(e.callee)
+            for a in e.args:
+                if a is not None and norm(a)[0] == "fn" and norm(a)[1] in local:
+                    tg.append(norm(a)[1])
+        return tg
+
+    R = {name: frozenset() for name in local}     # fields possibly read before written, from the function's entry
+
+    def analyse(f, init, report_to=None):
+        ptrs = cookie_ptrs(f)
+
+        def transfer(st, e):
+            if e.is_assign and e.op == "=":
+                p = fpath(norm(e.kid(0)), ptrs)
+                if p is not None:
+                    return st | {p}
+            return st
+        sv = Solver(f, init, transfer, None, lambda a, b: a & b).run()
+        need = set()
+
+        def visit(e, st):
+            rd = None
+            if e.cls == "ImplicitCastExpr" and e.op == "LValueToRValue":
+                rd = fpath(norm(e.kid(0)), ptrs)
+            elif (e.is_assign and e.op != "=") or e.is_incdec:
+                rd = fpath(norm(e.kid(0)), ptrs)
+            if rd is not None and not covered(rd, st):
+                need.add(rd)
+                if report_to is not None:
+                    report_to.append((e, rd, None))
+            for t in handoffs(e):
+                for fld in R.get(t, ()):
+                    if not covered(fld, st):
+                        need.add(fld)
+                        if report_to is not None:
+                            report_to.append((e, fld, t))
+        sv.visit(visit)
+        return frozenset(need)
+
+    # fixpoint of R over the (cyclic) continuation structure
+    for _ in range(40):
+        changed = False
+        for name, f in local.items():
+            if not cookie_ptrs(f):
+                continue
+            r = analyse(f, frozenset())
+            if r != R[name]:
+                R[name] = r
+                changed = True
+        if not changed:
+            break
+    # the constructor: the function that allocates the record
+    ctor = None
+    for f in local.values():
+        for c in f.calls("malloc"):
+            if c.arg(0) is not None and c.arg(0).val == rec.get("size"):
+                ctor = f
+    if ctor is None:
+        raise cdb.AnalysisBroken("W5: no malloc(sizeof(struct %s)) found" % REC)
+    bad = []
+    analyse(ctor, frozenset(), report_to=bad)
+    seen = set()
+    nread = sum(len(v) for v in R.values())
+    for e, fld, via in bad:
+        if (fld, via) in seen:
+            continue
+        seen.add((fld, via))
+        rep.bad("W5-init", "H->%s in %s" % (fld, ctor.name), e.where,
+                "the freshly allocated request's field %s is %s before any store to it: it holds whatever the allocator returned" % (
+                    fld, "read here" if via is None else "read by %s (reached from this call/registration) on some path" % via),
+                function=ctor.name, construct="uninit:" + fld)
+    if not bad:
+        rep.ok("W5-init", "every field of the request is stored before any path reads it (%d functions, %d read-before-write summaries)" % (len(local), nread), ctor.loc)
+    if nread < 10:
+        rep.defer_broken("W5: fewer than 10 field reads found in the continuation functions (matcher vacuous)")
+    return R
+
+
+# ---------------------------------------------------------------------------
+def header_scan(prog, rep):
+    """W6: H->hepos means "no header terminator starts before this offset of the unconsumed data".  In the scan for
+    CRLFCRLF the cursor (the index given to memcmp) advances only past a position whose four bytes were compared and did
+    not match, and whatever is stored into H->hepos (other than the reset to 0) is provably <= that cursor -- never an
+    offset whose four bytes have not all arrived yet, or a terminator cut by a read boundary is skipped for ever."""
+    from .. import poly
+    u = prog.unit(UNIT)
+    f = u.func("callback_read_header")
+    if f is None:
+        raise cdb.AnalysisBroken("anchor missing: callback_read_header")
+    cmps = [c for c in f.calls("memcmp") if c.arg(1) is not None and c.arg(1).strip().strv is not None and c.arg(1).strip().strv.rstrip(b"\0") == b"\r\n\r\n" and norm(c.arg(2)) == ("c", 4)]
+    if len(cmps) != 1:
+        rep.defer_broken("W6: expected one memcmp(.., CRLFCRLF, 4) in callback_read_header")
+        return
+    m = cmps[0]
+    a0 = norm(m.arg(0))
+    if not (a0[0] == "&" and a0[1][0] == "[]"):
+        rep.bad("W6-scan", "terminator comparison", m.where, "the compared bytes are not an element address &buf[cursor]: %s" % show(a0), function=f.name, construct="scan-operand")
+        return
+    cursor = a0[1][2]
+    # every modification of the cursor
+    okc = True
+    why = ""
+    nmod = 0
+    for e in f.all_elems():
+        st = ir.step(e)
+        tgt = norm(e.kid(0)) if (e.is_assign or e.is_incdec) else None
+        if tgt != cursor:
+            continue
+        nmod += 1
+        if st and st[0] == "+=" and st[2] == ("c", 1):
+            # only after a mismatch at this position: the increment is not reachable from the comparison's `== 0` edge
+            # without passing the comparison again
+            conds = [(op, L) for cond, truth in f.edge_conds(e) for op, L, R, _, _ in cond_atoms(cond, truth) if R == ("c", 0)]
+            mism = ("!=", norm(m)) in conds
+            if not mism:
+                # loop form `for (...; cursor++) { if (memcmp(..) == 0) break/return; }`: the match edge must leave the loop
+                for b in f.blocks.values():
+                    if b.cond is None or len(b.succs) != 2:
+                        continue
+                    for op, L, R, Le, _ in cond_atoms(b.cond, True):
+                        if Le is not None and Le.strip() is m and R == ("c", 0) and op in ("==", "!="):
+                            match_succ = b.succs[0] if op == "==" else b.succs[1]
+                            mism = match_succ is not None and not f.reach_avoiding(match_succ, e.block.id, m.block.id)
+            if not mism:
+                okc, why = False, "the cursor is advanced at %s although the four bytes at it matched or were not compared" % e.loc
+        elif e.is_assign and e.op == "=":
+            v = norm(e.kid(1))
+            if not (v == ("c", 0) or (v[0] == "." and v[2] == "hepos")):
+                okc, why = False, "the cursor is set to %s at %s" % (show(v), e.loc)
+        else:
+            okc, why = False, "the cursor is modified by %s at %s" % (e.text[:30], e.loc)
+    rep.check(okc and nmod >= 1, "W6-scan", "the terminator scan advances only past compared, non-matching positions", m.where, why, function=f.name, construct="scan-advance")
+    # the scan stops while four bytes are available: cursor + 4 <= buflen guards the comparison
+    g = any(op == "<=" and L == ir.B("+", cursor, ("c", 4)) for cond, truth in f.edge_conds(m) for op, L, R, _, _ in cond_atoms(cond, truth))
+    rep.check(g, "W6-scan", "four bytes are available at the cursor when they are compared", m.where, "no dominating test cursor + 4 <= buflen", function=f.name, construct="scan-guard")
+    # stores into H->hepos
+    hep = [e for e in f.all_elems() if e.is_assign and e.op == "=" and norm(e.kid(0))[0] == "." and norm(e.kid(0))[2] == "hepos" and norm(e.kid(0)) != cursor]
+    if hep:
+        A = poly.Analysis(f, quiet={"netbuf_read_peek", "memcmp", "netbuf_read_wait", "warn0", "warnp", None}).run()
+        for e in hep:
+            st = A.state_before(e)
+            v = A.lin(e.kid(1), st)
+            cl = poly.lin_of_norm(cursor)
+            ok = norm(e.kid(1)) == ("c", 0) or (v is not None and A.holds(st, "<=", v, cl))
+            rep.check(ok, "W6-scan", "H->hepos = %s records only examined positions" % show(norm(e.kid(1))), e.where,
+                      "the value stored is not provably <= the scan cursor %s: offsets whose four bytes have not all arrived would be marked as examined, "
+                      "so a CRLFCRLF cut by a read boundary is never found" % show(cursor), function=f.name, construct="hepos-store")
+    else:
+        rep.ok("W6-scan", "the scan cursor is H->hepos itself (no separate store)", f.loc)
+
 # ---------------------------------------------------------------------------
 def request_serialisation(prog, rep):
     """W2: the length computed for the request head is the sum of the pieces copied."""
